@@ -57,6 +57,12 @@ var c07Queries = []string{
 	`query($s: Boolean = false, $t: Boolean = true) { i { a ... on O { x(y: 1) @include(if: $t) } ... on P { p @skip(if: $s) e } } e @skip(if: $s) ul { ... on O { a @include(if: $t) } ... on P { p } } }`,
 	`{ __schema { types { name possibleTypes { name } enumValues { name } } } }`,
 	`{ __type(name: "I") { possibleTypes { name } } __type2: __type(name: "E") { enumValues { name } } }`,
+	// literal neighbours: under normalisation these share one cache entry, each with its own literal values
+	`{ e n(z: V2) }`,
+	`{ e n(z: V0) }`,
+	`{ n(x: {b: "t", e: V2}, z: V0) e }`,
+	`{ n(x: {b: "s", e: V1}, z: V1) e }`,
+	`{ n(x: {b: "u", e: V0}, z: V2) e }`,
 	`mutation { set(x: 1) o { i { a } } }`,
 	`{ nope }`,
 	`{ n(z: NOPE) }`,
